@@ -54,7 +54,8 @@ def fixed_cases(tier):
                 c += 1
                 setp(t, p, '$required' if mask >> i & 1 else c)
             out.append({'layers': [t], 'fmts': ['json'], 'labels': ['sweep']})
-    for ls in ([{'ports': ['$required', '$required']}, {'ports': [80]}], [{'ports': ['$required', '$required', 1]}, {'other': 1}], [['$required', {'a': '$required'}]],
+    for ls in ([{'$$price': '$required', 'm': {'$$cost': {'deep': ['$required']}}}], [{'$$price': '$required'}, {'$$price': 5}],
+               [{'ports': ['$required', '$required']}, {'ports': [80]}], [{'ports': ['$required', '$required', 1]}, {'other': 1}], [['$required', {'a': '$required'}]],
                [{'l': ['alpha']}, {'l': ['$required', 'beta']}], [{'l': ['$required']}, {'l': ['$required']}, {'z': 1}], [[['$required']], [1]]):
         out.append({'layers': ls, 'fmts': ['yaml'] * len(ls), 'labels': ['fixed']})
     _FIXED = out
@@ -67,7 +68,7 @@ def place(rng, t, n):
     for _ in range(n):
         p, c = rng.choice(conts)
         if isinstance(c, dict):
-            key = rng.choice(gen.KEYS)
+            key = rng.choice(gen.KEYS + ['$$price', '$$', 'x$$y'])
             c[key] = '$required' if rng.random() < 0.75 else ['$required']
         else:
             c.insert(rng.randint(0, len(c)), '$required' if rng.random() < 0.8 else ['$required'])
@@ -200,7 +201,8 @@ def check_case(ctx, case):
             return res.violate('agree', 'bkl binary status %s disagrees with bklr skeleton %s' % (rb.rc, 'empty' if want is None else 'non-empty'), layers=layers, fmts=fmts)
         if want is None:
             got = ser.parse_json_stream(rb.out.decode())
-            ev = drop_nulls(merged)
+            from .c06 import unescape
+            ev = unescape(drop_nulls(merged))
             if not veq(got, [ev], loose=True):
                 ctx.cleanup_case(d)
                 return res.violate('agree', 'bkl output differs from the merged input', layers=layers, expect=[ev], got=got)
